@@ -1,13 +1,22 @@
 // pub_common.h — shared by the publisher harnesses (C16).
 #pragma once
-// the published value type: an int whose destructor poisons the storage, so that reading an element the queue has
-// already destroyed (an index one past the retained window) shows up as a wrong value instead of going unnoticed
+// the published value type: an int whose destructor and whose moves poison the storage they leave behind, so that reading
+// an element the queue has already destroyed (an index one past the retained window) or moved out of shows up as a wrong
+// value instead of going unnoticed
 struct pint {
     int v;
     pint(int x = 0) : v(x) {}
     pint(const pint &o) : v(o.v) {}
     pint &operator=(const pint &o) {
         v = o.v;
+        return *this;
+    }
+    // a move is destructive (as for std::string): the source is left poisoned, so a queue element that was moved out
+    // instead of copied is seen by the next reader of the same position
+    pint(pint &&o) noexcept : v(o.v) { *(volatile int *)&o.v = -888888; }
+    pint &operator=(pint &&o) noexcept {
+        v = o.v;
+        *(volatile int *)&o.v = -888888;
         return *this;
     }
     ~pint() { *(volatile int *)&v = -777777; }
